@@ -191,19 +191,21 @@ def symptom(ev, expected):
 # switched on one at a time; a violation's signature is "<defective features of the case>/<symptom>"
 
 CORE_OFF = ["nodirid", "nofragdirs"]
-DEFECT_TAGS = {"dir-on-id": "dirid", "frag-dir": "fragdirs", "abstract": "abstract", "rootnode": "rootnode", "nested-list": "nestedlists"}
+DEFECT_TAGS = {"dir-on-id": "dirid", "frag-dir": "fragdirs", "abstract": "abstract", "rootnode": "rootnode", "nested-list": "nestedlists", "var-named-id": "varid"}
 STRATA = {
     # name: (features, share of the budget)
-    "core": (CORE_OFF + ["oddids", "biglists", "richargs"], 0.5),
+    "core": (CORE_OFF + ["oddids", "biglists", "richargs", "wide"], 0.5),
     "dirid": ([f for f in CORE_OFF if f != "nodirid"], 0.08),
     "fragdirs": ([f for f in CORE_OFF if f != "nofragdirs"], 0.08),
-    "abstract": (CORE_OFF + ["abstract", "richargs"], 0.2),
+    "abstract": (CORE_OFF + ["abstract", "richargs", "wide"], 0.2),
     # queries through the Relay entry point node(id:) at the root
     "rootnode": (CORE_OFF + ["rootnode"], 0.1),
     # fields of type [[T]]
     "nestedlists": (CORE_OFF + ["nestedlists"], 0.06),
     # stitched lists nested two deep, every level owned by another service
     "chain": (["chain"], 0.03),
+    # a client variable called id
+    "varid": (CORE_OFF + ["varid"], 0.04),
 }
 
 
